@@ -84,7 +84,7 @@ def showInventory (inv : Inventory) : String :=
     ++ n.acls.flatMap (fun (nm, a) => showAclLines h nm a)
     ++ (enumFrom 0 n.routes).map (fun (i, r) => s!"route {h} {i} {showIp r.addr} {showIp r.mask} {showIp r.hop} {r.metric}")
     ++ (match n.defaultRoute with | some ip => [s!"defroute {h} {showIp ip}"] | none => [])
-    ++ n.software.map (fun sw => s!"sw {h} {sw.name} {if sw.isApp then "app" else "svc"} n={sw.live} st={if sw.running then "RUNNING" else if sw.isApp then "CLOSED" else "STOPPED"} h={showHealth sw.health} dfl={showOpt toString sw.imposedFix}/{showOpt toString sw.imposedRestart} {showOpts sw.opts}")
+    ++ n.software.map (fun sw => s!"sw {h} {sw.name} {if sw.isApp then "app" else "svc"} n={sw.live} st={if sw.running then "RUNNING" else if sw.isApp then "CLOSED" else "STOPPED"} h={showHealth sw.health} dfl={showOpt toString sw.imposedFix}/{showOpt toString sw.imposedRestart} eff={if sw.effective.isEmpty then "-" else ",".intercalate (sw.effective.map fun e => s!"{e.1}:{e.2.getD "-"}")} {showOpts sw.opts}")
     ++ n.users.map (fun u => s!"user {h} {u.name} {u.password} {showBool u.admin}")
     ++ n.folders.flatMap (fun fd => s!"folder {h} {fd.name}" ::
         fd.files.map (fun f => s!"file {h} {fd.name} {f.name} {showOpt toString f.size} {showOpt id f.ftype}"))
